@@ -104,6 +104,11 @@ class DictProxy(dict):
         super().__setitem__(key, value)
 
     def _ref_path(self, key: str) -> str:
+        # Path of the dict field from the root *configuration*: inside list items and config types the schema
+        # path is not the path of the value.
+        cfg_path = getattr(self.cfg, "_ref_path", None)
+        if isinstance(cfg_path, str) and cfg_path:
+            return "%s.%s[%s]" % (cfg_path, self.dict_field._key, key)
         return "%s[%s]" % (self.dict_field._ref_path, key)
 
     def _validate(self, key: Any, value: Any) -> Tuple[Any, Any]:
